@@ -11,7 +11,11 @@
 (* the correlation id is the one found in the frame by the spec's decoder, the   *)
 (* broker's reply bytes are decoded by the spec's decoder and compared with what *)
 (* the caller was given), the routing clauses are KafkaCorrAbs's.                *)
-EXTENDS KafkaWire, KafkaCorrAbs, Json, IOUtils
+(*                                                                               *)
+(* "Stream" traces (events SSup / SBytes / SClosed / SEnd) are the byte stream   *)
+(* one live connection accepted, framed and judged request by request by the    *)
+(* KafkaStreamAbs machine (which uses ReqCheck / HdrCheck / DecRequest).         *)
+EXTENDS KafkaStreamAbs, KafkaCorrAbs, Json, IOUtils
 
 Traces == ndJsonDeserialize(IOEnv.TRACE_FILE)
 
@@ -25,6 +29,7 @@ TInit == /\ tid \in 1..Len(Traces)
          /\ verdict = "ok"
          /\ AInit
          /\ LInit
+         /\ SInit
 
 \* ---- late-reply events: bytes -> KafkaCorrAbs
 \* LReq: e = [r, api, topic, partition, acks, payloads, corr, cid, frame, sent, braised, hraised]
@@ -57,8 +62,11 @@ LDoneEvCheck(e) == LDoneCheck(e.r, e.raised, Matching(e))
 LDoneEvUpd(e)   == LDoneUpd(e.r, e.raised, Matching(e))
 
 IsLate(e) == e.e \in {"LReq", "LReply", "LDone", "LEnd"}
+IsStream(e) == e.e \in {"SSup", "SBytes", "SClosed", "SEnd"}
+\* the framing of an SBytes event is evaluated once per step (p below)
+NoParse == [rest |-> <<>>, used |-> {}, v |-> "ok"]
 
-CheckOf(e) ==
+CheckOfP(e, p) ==
   CASE e.e = "Req"   -> ReqCheck(e)
     [] e.e = "ReqR"  -> ReqRCheck(e)
     [] e.e = "Hdr"   -> HdrCheck(e)
@@ -69,6 +77,10 @@ CheckOf(e) ==
     [] e.e = "LReply" -> LReplyEvCheck(e)
     [] e.e = "LDone"  -> LDoneEvCheck(e)
     [] e.e = "LEnd"   -> LEndCheck(e.unread)
+    [] e.e = "SSup"    -> SSupCheck(e)
+    [] e.e = "SBytes"  -> SBytesCheckP(e.data, p)
+    [] e.e = "SClosed" -> SClosedCheck(e.mid)
+    [] e.e = "SEnd"    -> SEndCheck
     [] OTHER -> "harness.unknownEvent"
 
 LUpdOf(e) ==
@@ -77,17 +89,25 @@ LUpdOf(e) ==
     [] e.e = "LDone"  -> LDoneEvUpd(e)
     [] e.e = "LEnd"   -> LEndUpd
 
+SUpdOfP(e, p) ==
+  CASE e.e = "SSup"    -> SSupUpd(e)
+    [] e.e = "SBytes"  -> SBytesUpdP(p)
+    [] e.e = "SClosed" -> SClosedUpd(e.mid)
+    [] e.e = "SEnd"    -> SEndUpd
+
 TNext == /\ verdict = "ok"
          /\ l <= Len(Ev)
          /\ LET e == Ev[l]
-                chk == CheckOf(e)
+                p == IF e.e = "SBytes" /\ IsBytes(e.data) THEN SParse(e.data) ELSE NoParse
+                chk == CheckOfP(e, p)
             IN IF chk = "ok"
                THEN /\ AUpd /\ l' = l + 1 /\ verdict' = "ok"
                     /\ IF IsLate(e) THEN LUpdOf(e) ELSE UNCHANGED lvars
-               ELSE verdict' = chk /\ l' = l /\ UNCHANGED <<avars, lvars>>
+                    /\ IF IsStream(e) THEN SUpdOfP(e, p) ELSE UNCHANGED svars
+               ELSE verdict' = chk /\ l' = l /\ UNCHANGED <<avars, lvars, svars>>
          /\ UNCHANGED tid
 
-TSpec == TInit /\ [][TNext]_<<avars, lvars, tvars>>
+TSpec == TInit /\ [][TNext]_<<avars, lvars, svars, tvars>>
 
 Done == verdict # "ok" \/ l > Len(Ev)
 Report == Done => PrintT(<<"V", tid, l - 1, verdict>>)
